@@ -21,7 +21,7 @@ use redis_sim::replication::{ConsistencyLevel, CrdtValue, LamportClock, ReplicaI
 use redis_sim::streaming::{
     CheckpointConfig, CheckpointInfo, CheckpointManager, CompactionConfig, CompactionError, CompactionResult, Compactor,
     InMemoryObjectStore, ListResult, ManifestManager, ObjectMeta, ObjectStore, RecoveryManager, SimulatedClock,
-    StreamingPersistence, WriteBuffer, WriteBufferConfig,
+    StreamingConfig, StreamingIntegration, StreamingPersistence, WriteBuffer, WriteBufferConfig,
 };
 use serde::{Deserialize, Serialize};
 use serde_json::{json, Value};
@@ -1495,6 +1495,74 @@ fn compare_states(l: &Layout, before: &State, after: &State) -> (Option<(String,
     (None, dropped_legit)
 }
 
+/// Compaction run by the integration's own worker (not by a Compactor the harness builds): same before / after oracle.
+async fn integration_worker_cases(rep: &mut Report) {
+    let u = |key: &str, t: u64, k: UK| U { key: key.into(), rid: 1, t, k };
+    let seg = |ups: Vec<U>| Seg { ups, large: false };
+    for (ttl_ms, pivot) in [(7 * 24 * HOUR_MS, 60u64), (2 * HOUR_MS, 60), (36 * HOUR_MS, 60)] {
+        // logical tick = one minute around the pivot: t = pivot-40 is 40 minutes older than the TTL, pivot+30 is younger
+        for tomb_t in [pivot - 40, pivot + 30] {
+            let l = Layout {
+                segs: vec![
+                    seg(vec![u("victim", tomb_t - 5, UK::Val("old-value".into())), u("other", tomb_t - 4, UK::Val("x".into()))]),
+                    seg(vec![u("victim", tomb_t, UK::Tomb)]),
+                    seg(vec![u("third", tomb_t + 1, UK::Val("y".into()))]),
+                ],
+                ckpt: 0,
+                target: 1 << 20,
+                max_per: 10,
+                ttl_ms,
+                clock: Clock::ProdWall { pivot },
+            };
+            let store = build_layout(&l).await;
+            let Ok(before) = recover_fold(&store.objects()).await else {
+                rep.inconclusive("integration-worker layout does not recover before compaction");
+                return;
+            };
+            let mut cfg = StreamingConfig::test();
+            cfg.prefix = PFX.into();
+            cfg.compaction.max_segments = 1;
+            cfg.compaction.min_segments_to_compact = 2;
+            cfg.compaction.target_segment_size = l.target;
+            cfg.compaction.max_segments_per_compaction = l.max_per;
+            cfg.compaction.tombstone_ttl = Duration::from_millis(ttl_ms);
+            let integ = StreamingIntegration::with_store(Arc::new(store.tag(0)), cfg, 1);
+            let handles = match integ.start_workers().await {
+                Ok((h, _sender)) => h,
+                Err(e) => {
+                    rep.inconclusive(format!("StreamingIntegration::start_workers failed: {}", e));
+                    return;
+                }
+            };
+            // the worker looks once a minute (virtual time: the runtime's clock is paused and auto-advances)
+            tokio::time::sleep(Duration::from_secs(200)).await;
+            handles.shutdown().await;
+            rep.evaluations += 1;
+            rep.count("integration_worker_cases");
+            let segs_after = store.objects().keys().filter(|k| k.contains("/segments/")).count();
+            if segs_after < 3 {
+                rep.count("integration_worker_compacted");
+            }
+            rep.distinct(&("integration-worker", ttl_ms, tomb_t < pivot));
+            match recover_fold(&store.objects()).await {
+                Err(e) => rep.violation("C13|integration-worker|recover-failed-after-compaction", e, json!({"mode": "integration-worker", "layout": l})),
+                Ok(after) => {
+                    if let (Some((kind, _, detail)), _) = compare_states(&l, &before, &after) {
+                        rep.violation(
+                            format!("C13|integration-worker|{}|ttl={}", kind, if ttl_ms > 24 * HOUR_MS { ">24h" } else { "<24h" }),
+                            format!("compaction run by StreamingIntegration's worker with tombstone_ttl = {} h: {}", ttl_ms / HOUR_MS, detail),
+                            json!({"mode": "integration-worker", "layout": l}),
+                        );
+                    }
+                }
+            }
+        }
+    }
+    if rep.counters.get("integration_worker_compacted").copied().unwrap_or(0) == 0 {
+        rep.inconclusive("the integration's compaction worker never compacted a layout");
+    }
+}
+
 /// recover → compact → recover on a layout and compare.
 async fn eval_layout(l: &Layout) -> Result<Outcome, String> {
     let store = build_layout(l).await;
@@ -2100,6 +2168,12 @@ async fn compact_body(rep: &mut Report, args: &Args) {
             rep.count("layouts_directed");
             layout_case(rep, l, false, corrupt(1_000_000 + i as u64, true)).await;
         }
+    }
+    // the compaction worker as the server wires it (StreamingIntegration::start_workers): the configured tombstone
+    // TTL, target size and limits must reach the compactor it builds. Wall-scale stamps, TTLs of 7 days and 2 hours,
+    // tombstones on both sides of the TTL, an older value of the deleted key in an earlier segment.
+    if args.shard == 0 {
+        integration_worker_cases(rep).await;
     }
     let layouts = args.get_u64("layouts", if args.thorough() { 160_000 } else { 8000 });
     for i in 0..layouts {
